@@ -17,6 +17,10 @@ pub struct DwarfOpts {
     pub spanning: bool,
     /// DWARF 5 only: rows name file index 0
     pub file0: bool,
+    /// DW_AT_high_pc given as an address (DW_FORM_addr) instead of an offset from low_pc
+    pub high_addr: bool,
+    /// one spanning sequence that has no DW_LNE_set_address (its addresses count from 0)
+    pub no_set_address: bool,
 }
 
 pub struct FuncLayout {
@@ -104,9 +108,9 @@ pub fn add_dwarf(wasm: &[u8], opts: DwarfOpts) -> Option<Vec<u8>> {
     let dir = lp.default_directory();
     let file = lp.add_file(LineString::String(b"f.c".to_vec()), dir, None);
     let mut line = 1u64;
-    let base0 = funcs.first().map(|f| f.body_start).unwrap_or(0);
+    let base0 = if opts.no_set_address { 0 } else { funcs.first().map(|f| f.body_start).unwrap_or(0) };
     if opts.spanning && !funcs.is_empty() {
-        lp.begin_sequence(Some(Address::Constant(base0)));
+        lp.begin_sequence(if opts.no_set_address { None } else { Some(Address::Constant(base0)) });
     }
     for f in &funcs {
         if !opts.spanning {
@@ -136,7 +140,11 @@ pub fn add_dwarf(wasm: &[u8], opts: DwarfOpts) -> Option<Vec<u8>> {
         let e = dwarf.unit.get_mut(id);
         e.set(gimli::DW_AT_name, AttributeValue::String(format!("f{}", nimp as usize + i).into_bytes()));
         e.set(gimli::DW_AT_low_pc, AttributeValue::Address(Address::Constant(f.body_start)));
-        e.set(gimli::DW_AT_high_pc, AttributeValue::Udata(f.end - f.body_start));
+        if opts.high_addr {
+            e.set(gimli::DW_AT_high_pc, AttributeValue::Address(Address::Constant(f.end)));
+        } else {
+            e.set(gimli::DW_AT_high_pc, AttributeValue::Udata(f.end - f.body_start));
+        }
     }
     let mut sections = Sections::new(EndianVec::new(LittleEndian));
     dwarf.write(&mut sections).ok()?;
@@ -170,5 +178,5 @@ pub fn materialize(spec: &str) -> Option<Vec<u8>> {
     let mode = it.next()?;
     let base = it.next()?;
     let wasm = crate::workload::materialize(base)?;
-    add_dwarf(&wasm, DwarfOpts { version, spanning: mode == "s", file0: mode == "z" })
+    add_dwarf(&wasm, DwarfOpts { version, spanning: mode == "s" || mode == "n", file0: mode == "z", high_addr: mode == "a", no_set_address: mode == "n" })
 }
